@@ -15,7 +15,7 @@ from drivers import realproc as rp
 SLOWBOOT = 'def post_fork(server, worker):\n    import time\n    time.sleep(0.6)\n'
 
 
-def run_reload(wk, nhup, new_workers, seed, bind="tcp", drop_env_last=False, relcfg=False, burst=False):
+def run_reload(wk, nhup, new_workers, seed, bind="tcp", drop_env_last=False, relcfg=False, burst=False, ignsig=False):
     """drop_env_last: the configuration of the last HUP no longer has the raw_env line: the workers of the last generation
     run without the variable.  burst: the HUPs follow each other faster than a worker boots (a post_fork hook that takes
     0.6 s): a reload retires workers that the previous one has forked and that have not installed their handlers yet"""
@@ -26,7 +26,7 @@ def run_reload(wk, nhup, new_workers, seed, bind="tcp", drop_env_last=False, rel
     port2 = rp.free_port() if bind == "tcp2" else None
     s = rp.Server(wk, workers=2, threads=3 if wk == "gthread" else None, config=cfg1, bind="tcp" if bind == "tcp2" else bind,
                   args=["--graceful-timeout", "4", "--keep-alive", "1", "--timeout", "30"] +
-                       (["-b", "127.0.0.1:%d" % port2] if port2 else []), name="c10", relcfg=relcfg)
+                       (["-b", "127.0.0.1:%d" % port2] if port2 else []), name="c10", relcfg=relcfg, ignsig=ignsig)
     # -w on the command line would override the file: drop it
     i = s.cmd.index("-w")
     del s.cmd[i:i + 2]
@@ -158,15 +158,18 @@ def reload_side(ctx):
             # the configuration file named relative to the start directory, --chdir elsewhere
             ("sync", 2, 3, "tcp", False, True),
             # HUPs that follow each other faster than a worker boots
-            ("sync", 2, 2, "tcp", False, False, True), ("gevent", 3, 2, "tcp", False, False, True)] if ctx.quick else \
+            ("sync", 2, 2, "tcp", False, False, True), ("gevent", 3, 2, "tcp", False, False, True),
+            # started under nohup-like conditions: the master's signals (HUP among them) were left set to "ignore"
+            ("sync", 2, 3, "tcp", False, False, False, True)] if ctx.quick else \
         [(wk, n, w, b) for wk in ("sync", "gthread", "gevent", "eventlet")
          for (n, w, b) in ((1, 3, "tcp"), (2, 1, "localhost"), (3, 2, "unix"), (1, 2, "tcp2"), (2, 0, "tcp"))] + \
         [(wk, n, 2, "tcp", True) for wk in ("sync", "gthread", "gevent", "eventlet") for n in (1, 2, 3)] + \
         [(wk, 2, 3, b, False, True) for wk in ("sync", "gthread", "gevent", "eventlet") for b in ("tcp", "unix")] + \
-        [(wk, n, 2, "tcp", False, False, True) for wk in ("sync", "gthread", "gevent", "eventlet") for n in (2, 3)]
+        [(wk, n, 2, "tcp", False, False, True) for wk in ("sync", "gthread", "gevent", "eventlet") for n in (2, 3)] + \
+        [(wk, 2, 3, b, False, False, False, True) for wk in ("sync", "gthread", "gevent") for b in ("tcp", "unix")]
     results = _parallel(plan, lambda a, i: run_reload(a[0], a[1], a[2], ctx.seed * 10 + i, bind=a[3],
                                                         drop_env_last=len(a) > 4 and a[4], relcfg=len(a) > 5 and a[5],
-                                                        burst=len(a) > 6 and a[6]), par=10)
+                                                        burst=len(a) > 6 and a[6], ignsig=len(a) > 7 and a[7]), par=10)
     traces = [r[0] for r in results]
     metas = [r[1] for r in results]
     # in-process: TERM (what a reload sends to the old workers) at every system-call boundary of the real sync loop
@@ -189,7 +192,7 @@ def reload_side(ctx):
     def rerun(k):
         a = plan[k]
         return run_reload(a[0], a[1], a[2], ctx.seed * 10 + k, bind=a[3], drop_env_last=len(a) > 4 and a[4], relcfg=len(a) > 5 and a[5],
-                          burst=len(a) > 6 and a[6])
+                          burst=len(a) > 6 and a[6], ignsig=len(a) > 7 and a[7])
     tlc.repeat_failing(ctx, "ReloadTrace", "ReloadTrace.cfg", traces, metas, verdicts, range(len(plan)), rerun, "ReloadTrace_C10")
     ctx.coverage["real_process_reloads"] = len(traces)
     ctx.coverage["requests_during_reload"] = sum(m["requests"] for m in metas)
